@@ -239,6 +239,7 @@ inductive Out
   | qn (p ns l : Str)
   | str (s : Str)
   | err (e : Err)
+  | doc (table : List (Str × Str))
   deriving Repr, DecidableEq
 
 abbrev QN := Str × Str × Str   -- (prefix, namespace, name)
@@ -485,6 +486,75 @@ def getQNames : List (Str × Bool) → Store → Mgr → Store × Mgr
 def serializeTriple (st : Store) (m : Mgr) (s p o : Str) : Store × Mgr :=
   getQNames [(s, false), (p, true), (o, false), (s, false), (p, true), (o, false)] st m
 
+/-! ### the prefix table of one Turtle / N3 / longturtle document (`TurtleSerializer.addNamespace`) -/
+
+structure Doc where
+  table : List (Str × Str)     -- `self.namespaces`  : document prefix ↦ namespace (the `@prefix` lines)
+  rewrite : List (Str × Str)   -- `self._ns_rewrite` : graph prefix ↦ document prefix
+  deriving Repr
+
+def Doc.empty : Doc := ⟨[], []⟩
+
+/-- `p = "p" + prefix; while p in self.namespaces: p = "p" + p` -/
+def freshP (table : List (Str × Str)) : Nat → Str → Option Str
+  | 0, _ => none
+  | fuel + 1, p => if hasKey table p then freshP table fuel (112 :: p) else some p
+
+/-- `TurtleSerializer.addNamespace(prefix, namespace)`: prefixes starting with `_`, and prefixes
+    already used in the document for another namespace, are renamed to `p…`; the base class then
+    refuses (raises) to give a declared prefix a second namespace. Returns the document prefix. -/
+def Doc.addNamespace (d : Doc) (p n : Str) : Except Err (Doc × Str) :=
+  let needs := p.head? == some 95 || (alookup d.table p).getD n != n
+  let rw : Option (List (Str × Str) × Str) :=
+    if needs then
+      match alookup d.rewrite p with
+      | some q => some (d.rewrite, q)
+      | none =>
+        match freshP d.table (d.table.length + 1) (112 :: p) with
+        | some q => some (aset d.rewrite p q, q)
+        | none => none
+    else some (d.rewrite, p)
+  match rw with
+  | none => .error .Loop
+  | some (rwt, q) =>
+    match alookup d.table q with
+    | some n' => if n' != n then .error .Other else .ok (⟨aset d.table q n, rwt⟩, q)
+    | none => .ok (⟨aset d.table q n, rwt⟩, q)
+
+/-- `TurtleSerializer.getQName(uri, gen_prefix)` for a URIRef: `compute_qname`, on any exception the
+    IRI's own prefix if it is a bound namespace; no name if the local part ends with `.`;
+    otherwise the prefix is registered in the document.  `some (d, l)` = the name `d:l` was produced. -/
+def docGetQName (st : Store) (m : Mgr) (d : Doc) (uri : Str) (gen : Bool) :
+    Store × Mgr × Except Err (Doc × Option (Str × Str)) :=
+  let r := Mgr.computeQname st m uri gen
+  let parts : Option QN :=
+    match r.2.2 with
+    | .ok q => some q
+    | .error _ =>
+      match r.1.prefix uri with
+      | some pfx => some (pfx, uri, [])
+      | none => none
+  match parts with
+  | none => (r.1, r.2.1, .ok (d, none))
+  | some (p, n, l) =>
+    if l.getLast? == some 46 then (r.1, r.2.1, .ok (d, none))
+    else
+      match d.addNamespace p n with
+      | .ok (d', q) => (r.1, r.2.1, .ok (d', some (q, l)))
+      | .error e => (r.1, r.2.1, .error e)
+
+/-- `preprocess()` of a document: `getQName` for every IRI node in the order the triples are met
+    (`generate` only for predicates).  Returns the names produced: (IRI, document prefix, local). -/
+def serDoc : List (Str × Bool) → Store → Mgr → Doc → List (Str × Str × Str) →
+    Store × Mgr × Except Err (Doc × List (Str × Str × Str))
+  | [], st, m, d, acc => (st, m, .ok (d, acc))
+  | (u, g) :: r, st, m, d, acc =>
+    let q := docGetQName st m d u g
+    match q.2.2 with
+    | .error e => (q.1, q.2.1, .error e)
+    | .ok (d', none) => serDoc r q.1 q.2.1 d' acc
+    | .ok (d', some (dp, l)) => serDoc r q.1 q.2.1 d' (acc ++ [(u, dp, l)])
+
 /-! ### histories -/
 
 inductive Op
@@ -502,6 +572,7 @@ inductive Op
   | parse (m : Bool) (d : List (Str × Str))
   | parsexml (m : Bool) (d : List (Option Str × Str))
   | ser (m : Bool) (s p o : Str)
+  | serdoc (m : Bool) (qs : List (Str × Bool))
   deriving Repr
 
 structure St where
@@ -540,6 +611,13 @@ def St.step (s : St) : Op → St × Out
   | .parse i d => let r := parseTurtle s.store (s.mgr i) d; (s.put i (r.1, r.2.1), r.2.2)
   | .parsexml i d => let r := parseXml s.store (s.mgr i) d; (s.put i (r.1, r.2.1), r.2.2)
   | .ser i a b c => (s.put i (serializeTriple s.store (s.mgr i) a b c), .unit)
+  | .serdoc i qs =>
+    -- the harness calls `reset()` right after the serialisation (see harness/c17.py)
+    let r := serDoc qs s.store (s.mgr i) Doc.empty []
+    (s.put i (r.1, Mgr.reset r.1 r.2.1),
+      match r.2.2 with
+      | .ok (d, _) => .doc d.table
+      | .error e => .err e)
 
 def St.run (s : St) (ops : List Op) : St := ops.foldl (fun s o => (s.step o).1) s
 
